@@ -1,6 +1,8 @@
 package main
 
 import (
+	"crypto/sha256"
+	"encoding/hex"
 	"fmt"
 	"regexp"
 	"strings"
@@ -75,7 +77,8 @@ type refBlock struct {
 	idx     int
 	src     string
 	kind    string
-	ref     string // the fixture's reference HTML (α-renamed)
+	ref     string // the fixture's reference HTML
+	solo    string // the block rendered alone (real output)
 }
 
 func runC01(res *Result, tier string, seed int64, replay string) {
@@ -134,7 +137,7 @@ func runC01(res *Result, tier string, seed int64, replay string) {
 			res.Count("blocks:source-not-splittable")
 			continue
 		}
-		ref := alphaIDs(f.HTML)
+		ref := f.HTML
 		r, err := drv.Ask("refsplit " + hexOf(ref))
 		if err != nil {
 			continue
@@ -157,7 +160,8 @@ func runC01(res *Result, tier string, seed int64, replay string) {
 			if k < len(ks) {
 				kind = ks[k]
 			}
-			blocks = append(blocks, refBlock{fixture: f.Name, idx: k, src: s, kind: kind, ref: ref})
+			_ = kind
+			blocks = append(blocks, refBlock{fixture: f.Name, idx: k, src: s, kind: blockKind(s), ref: ref})
 		}
 	}
 	res.Note("part 2: %d top-level blocks cut from context-free fixtures", len(blocks))
@@ -170,7 +174,7 @@ func runC01(res *Result, tier string, seed int64, replay string) {
 	parallel(8, len(blocks), func(i int) {
 		b := blocks[i]
 		res.Case("solo:"+b.fixture+fmt.Sprint(b.idx), false)
-		r, err := drv.Ask(fmt.Sprintf("refcompose %s %s %d", hexOf(alphaIDs(solo[i])), hexOf(b.ref), b.idx))
+		r, err := drv.Ask(fmt.Sprintf("refcompose %s %s %d", hexOf(solo[i]), hexOf(b.ref), b.idx))
 		if err != nil {
 			return
 		}
@@ -186,6 +190,7 @@ func runC01(res *Result, tier string, seed int64, replay string) {
 	var gb []refBlock
 	for i, b := range blocks {
 		if good[i] {
+			b.solo = solo[i]
 			gb = append(gb, b)
 		}
 	}
@@ -225,6 +230,36 @@ func runC01(res *Result, tier string, seed int64, replay string) {
 	parallel(8, len(seqs), func(i int) { c01Sequence(res, drv, seqs[i], outs[i]) })
 }
 
+// reID gives the generated identifiers of a reference position-specific names, so that fragments taken from different
+// references (or twice from the same one) do not share identifiers; the driver α-renames both sides afterwards
+func reID(html string, k int) string {
+	return hexID.ReplaceAllStringFunc(html, func(id string) string {
+		h := sha256.Sum256([]byte(fmt.Sprintf("%d/%s", k, id)))
+		return hex.EncodeToString(h[:8])
+	})
+}
+
+// blockKind: what the body loop distinguishes
+func blockKind(src string) string {
+	m := topTagRe.FindStringSubmatch(src)
+	if m == nil {
+		return "?"
+	}
+	end := strings.Index(src, ">")
+	open := src
+	if end > 0 {
+		open = src[:end]
+	}
+	k := map[string]string{"mj-section": "S", "mj-wrapper": "W", "mj-hero": "H", "mj-raw": "R"}[strings.ToLower(m[1])]
+	if strings.Contains(open, "full-width") {
+		k += "fw"
+	}
+	if strings.Contains(open, "background-url") {
+		k += "bg"
+	}
+	return k
+}
+
 func composeDoc(bs []refBlock) string {
 	var b strings.Builder
 	b.WriteString("<mjml><mj-body>")
@@ -237,17 +272,46 @@ func composeDoc(bs []refBlock) string {
 
 func c01Sequence(res *Result, drv *DriverPool, sq []refBlock, real string) {
 	var names, kinds []string
-	req := "refcompose " + hexOf(alphaIDs(real))
-	for _, b := range sq {
+	req := "refcompose " + hexOf(real)
+	for k, b := range sq {
 		names = append(names, fmt.Sprintf("%s#%d", b.fixture, b.idx))
 		kinds = append(kinds, b.kind)
-		req += fmt.Sprintf(" %s %d", hexOf(b.ref), b.idx)
+		req += fmt.Sprintf(" %s %d", hexOf(reID(b.ref, k)), b.idx)
 	}
 	res.Case("seq:"+strings.Join(names, "+"), true)
 	res.Count(fmt.Sprintf("sequence-length=%d", len(sq)))
 	res.mu.Lock()
 	res.Programs++
 	res.mu.Unlock()
+	// correspondence of the body-loop Model (`Merge.bodyLoop`, the object of the lifting theorem): the composed body equals
+	// the Model's loop run on the blocks' own solo outputs, and every block meets the theorem's well-formedness premise
+	lreq := "refloop " + hexOf(real)
+	for k, b := range sq {
+		fl := "-"
+		switch b.kind {
+		case "S":
+			fl = "cn"
+		case "Sbg", "W", "Wbg":
+			fl = "n"
+		}
+		lreq += " " + hexOf(reID(b.solo, k)) + " " + fl
+	}
+	lr, err := drv.Ask(lreq)
+	res.mu.Lock()
+	res.DisagreementsChecked++
+	res.mu.Unlock()
+	switch {
+	case err != nil:
+		res.Disagree(Violation{Sig: "driver-failed", What: err.Error()})
+	case strings.HasPrefix(lr, "wf=0"):
+		res.Disagree(Violation{Sig: "block-not-wf|" + strings.Join(kinds, ">") + "|" + digest(strings.Join(names, "+")), Kind: "input",
+			What: "a block of " + strings.Join(names, ", ") + " does not meet Blk.WF (premise of C01_lifting): " + short(lr, 300), Input: map[string]interface{}{"blocks": names, "source": composeDoc(sq)}})
+	case !strings.HasPrefix(lr, "wf=1 eq "):
+		res.Disagree(Violation{Sig: "loop-model-mismatch|" + strings.Join(kinds, ">") + "|" + digest(strings.Join(names, "+")), Kind: "input",
+			What: "body of " + strings.Join(names, ", ") + " differs from the Model's body loop run on the blocks' solo outputs: " + short(lr, 500), Input: map[string]interface{}{"blocks": names, "source": composeDoc(sq)}})
+	default:
+		res.Count("sequence=body-loop-model-agrees")
+	}
 	r, err := drv.Ask(req)
 	if err != nil {
 		res.Disagree(Violation{Sig: "driver-failed", What: err.Error()})
@@ -328,7 +392,7 @@ func canonTokens(drv *DriverPool, html string) ([]string, error) {
 
 func c01Compare(res *Result, drv *DriverPool, f Fixture, real string) bool {
 	res.Case("fixture:"+f.Name, true)
-	ra, rb := alphaIDs(real), alphaIDs(f.HTML)
+	ra, rb := real, f.HTML // generated ids are α-renamed by the driver
 	r, err := drv.Ask("refcmp " + hexOf(ra) + " " + hexOf(rb))
 	if err != nil {
 		res.Disagree(Violation{Sig: "driver-failed", What: err.Error()})
